@@ -377,7 +377,14 @@ func retype(v any, kind string) any {
 		}
 		return t
 	case map[string]any:
+		// sorted keys: with kind "mixed" the kind a number gets depends on the order of the walk, and the same request
+		// must give the same document in every process
+		keys := make([]string, 0, len(t))
 		for k := range t {
+			keys = append(keys, k)
+		}
+		sort.Strings(keys)
+		for _, k := range keys {
 			t[k] = retype(t[k], kind)
 		}
 		return t
@@ -483,6 +490,7 @@ func opQuery(r *req) (out resp) {
 		return
 	}
 	if r.NumKind != "" {
+		mixedCounter = 0
 		doc = retype(doc, r.NumKind).(map[string]any)
 	}
 	if r.Tables == "maps" {
